@@ -630,3 +630,138 @@ def gen_ops(r, cid):
         b = r.randrange(n)
         ops += ["w:%d:aabbcc" % b, "z:%d:8" % b, "save"]; feats.add("probe-zalloc-after-raw-growth")
     return cid + " " + " ".join(ops), feats
+
+
+# ---------------------------------------------------------------------------------------------
+# shared pieces of the three checks
+
+REC = dict(extra_defs="-fsanitize-recover=alignment,bounds", tag="rec")
+ENV = {"UBSAN_OPTIONS": "halt_on_error=0:print_stacktrace=0", "ASAN_OPTIONS": "detect_leaks=0:abort_on_error=0:exitcode=99"}
+UB_ALIGN = "load_of_misaligned_address_ADDR_for_type_'void_*'"
+UB_ALIGN_ST = "store_to_misaligned_address_ADDR_for_type_'void_*'"
+UB_INDEX = "index_N_out_of_bounds_for_type_'YR_ARENA_BUFFER_[16]'"
+
+
+def scratch_env(pid, extra=None):
+    import os
+    from vf import core
+    d = os.path.join(core.OUT, pid, "scratch")
+    os.makedirs(d, exist_ok=True)
+    e = dict(ENV)
+    e["VF_SCRATCH"] = d
+    if extra:
+        e.update(extra)
+    return e
+
+
+def split_ub(line):
+    """-> (line without UB: tokens, list of UB summaries)"""
+    toks = line.split()
+    return " ".join(t for t in toks if not t.startswith("UB:")), [t[3:] for t in toks if t.startswith("UB:")]
+
+
+def norm_ops(line):
+    """canonical token list of an op-sequence result (C side or model side)"""
+    out = []
+    for t in line.split():
+        if t.startswith("UB:"):
+            continue
+        if t.startswith("CRASH:assert"):
+            out.append("ASSERT")
+            break
+        out.append(t)
+        if t == "ASSERT":
+            break
+    return out
+
+
+def ops_agree(impl, model):
+    """compare token lists; the model's OOB (the C code reads beyond the used bytes), ADDRDEP (two
+    relocation entries of a corrupted image overlap) and UNSPEC (allocate_zeroed served from spare
+    capacity that was never cleared) mean "anything may happen from here in this line"."""
+    for x, y in zip(impl, model):
+        if "OOB" in y or "ADDRDEP" in y:
+            return True, "tolerated"
+        if x != y:
+            if "UNSPEC" in y:
+                continue
+            return False, "diff"
+    if len(impl) != len(model):
+        return False, "length"
+    return True, "equal"
+
+
+def ops_tie(chk, b, n, tag, replay_case=None):
+    """op-sequence correspondence of the Lean arena model with arena.c. Returns (found, cov, ub_seen)."""
+    import collections, re
+    from vf import core
+    r = core.rng(tag)
+    gen = [gen_ops(r, "a%d" % i) for i in range(n)]
+    cases = [g[0] for g in gen]
+    if replay_case:
+        cases = [replay_case]
+    env = scratch_env(chk.pid)
+    impl, rc, err = core.run_parallel([b["h_arena"]], cases, env=env)
+    model, mrc, merr = core.run_parallel([core.driver_path(), "arena"], cases)
+    found = False
+    if rc != 0 or mrc != 0:
+        chk.violation("arena_ops_crash.json", {"kind": "harness-or-driver-failed", "rc": rc, "stderr": err, "model_rc": mrc, "model_stderr": merr,
+                                                 "engine": "arena", "harness": "h_arena", "cases": cases[:20]})
+        return True, {}, set()
+    mi = {l.split(" ", 1)[0]: l for l in impl}
+    mm = {l.split(" ", 1)[0]: l for l in model}
+    st = collections.Counter()
+    ubs = collections.Counter()
+    feats = collections.Counter()
+    nbad = 0
+    nontrivial = set()
+    for i, c in enumerate(cases):
+        k = c.split(" ", 1)[0]
+        a, m = mi.get(k, ""), mm.get(k, "")
+        for u in split_ub(a)[1]:
+            ubs[u] += 1
+        ok, how = ops_agree(norm_ops(a), norm_ops(m))
+        st[how] += 1
+        for t in norm_ops(m)[1:]:
+            st["tok:" + re.sub(r"[=:].*", "", re.sub(r"^\d+\.\d+$", "ref", t))] += 1
+        if not replay_case:
+            for f in gen[i][1]:
+                feats[f] += 1
+        if "S=" in m and "load:" in c and any(x.startswith("sp:") or x.startswith("p:") for x in c.split()):
+            nontrivial.add(c.split(" ", 1)[1])
+        if not ok:
+            nbad += 1
+            found = True
+            if nbad <= 5:
+                ni, nm = norm_ops(a), norm_ops(m)
+                at = next((j for j, (x, y) in enumerate(zip(ni, nm)) if x != y), min(len(ni), len(nm)))
+                chk.violation("arena_ops_diff_%d.json" % nbad,
+                              {"kind": "arena-model-implementation-disagreement", "engine": "arena", "harness": "h_arena", "case": c,
+                               "first_difference_at_op": c.split()[at] if at < len(c.split()) else None,
+                               "implementation": a[:4000], "model": m[:4000], "part": "ops"})
+    cov = {"arena_op_sequences": len(cases), "arena_op_sequences_agree": len(cases) - nbad, "arena_ops_total": sum(len(c.split()) - 1 for c in cases),
+           "arena_op_outcomes": dict(st.most_common(30)), "arena_op_features": dict(feats), "arena_ops_nontrivial": len(nontrivial)}
+    return found, cov, set(ubs)
+
+
+def known_ub(chk, pid, ubs, findings):
+    """UBSan reports seen in arena.c during the run -> KNOWN-FINDING (if listed) or violation."""
+    found = False
+    for u in sorted(ubs):
+        hit = None
+        for f in findings:
+            sig = f.get("signature", {})
+            if sig.get("kind") == "ubsan" and sig.get("message") in u and u.endswith("@" + sig.get("file", "")):
+                hit = f
+        if hit:
+            chk.known(hit, "%s: %s" % (hit["id"], u))
+        else:
+            chk.violation("ub_%s.json" % hashlib_name(u), {"kind": "undefined-behaviour-report", "report": u,
+                                                           "note": "UBSan report (recoverable build) that is not a listed known finding"})
+            found = True
+    return found
+
+
+def hashlib_name(s):
+    import hashlib
+    return hashlib.sha1(s.encode()).hexdigest()[:10]
